@@ -82,6 +82,38 @@ Definition caseV_violation (c : caseV) : list problem :=
   set_diff (v_cli c) (map problem_of (merge_spec (v_results c))) ++
   set_diff (map problem_of (merge_spec (v_results c))) (v_cli c).
 
+(* ---- one package = one bundle: every exported graph once, cases refer to graphs by index ---- *)
+Record gcase := mkG {
+  g_graph : labelled;
+  g_res1 : list N * list N * list N;     (* (Used, Unused, Quiet) returned by the analyzer's Run *)
+  g_res2 : list N * list N * list N      (* Results() over the exported nodes (second construction of the graph) *)
+}.
+Record permref := mkPR { pr_i : nat; pr_j : nat; pr_pi : list N; pr_pinv : list N;
+                         pr_un1 : list N; pr_un2 : list N; pr_us1 : list N; pr_us2 : list N }.
+Record monoref := mkMR { mr_i : nat; mr_j : nat; mr_pi : list N; mr_us1 : list N; mr_us2 : list N }.
+Record bundle := mkB { b_graphs : list gcase; b_perms : list permref; b_monos : list monoref }.
+
+Definition res_eqb (a b : list N * list N * list N) : bool :=
+  match a, b with (u1, n1, q1), (u2, n2, q2) => list_eqb u1 u2 && list_eqb n1 n2 && list_eqb q1 q2 end.
+Definition gcase_ok (c : gcase) : bool :=
+  cgraph_wf (strip (g_graph c)) &&
+  let r := results (g_graph c) in res_eqb r (g_res1 c) && res_eqb r (g_res2 c).
+Definition graph_at (b : bundle) (i : nat) : cgraph := strip (g_graph (nth i (b_graphs b) (mkG [] ([],[],[]) ([],[],[])))).
+Definition perm_case (b : bundle) (r : permref) : caseP :=
+  mkP (graph_at b (pr_i r)) (graph_at b (pr_j r)) (pr_pi r) (pr_pinv r) (pr_un1 r) (pr_un2 r) (pr_us1 r) (pr_us2 r).
+Definition mono_case (b : bundle) (r : monoref) : caseM :=
+  mkM (graph_at b (mr_i r)) (graph_at b (mr_j r)) (mr_pi r) (mr_us1 r) (mr_us2 r).
+
+Inductive diag := DGraph (i : nat) | DPerm (k : nat) (d : pdiff) | DMono (k : nat) (d : mdiff).
+Definition indexed {A} (l : list A) : list (nat * A) := combine (seq 0 (length l)) l.
+Definition bundle_mismatch (b : bundle) : list diag :=
+  flat_map (fun ic => if gcase_ok (snd ic) then [] else [DGraph (fst ic)]) (indexed (b_graphs b)) ++
+  flat_map (fun kr => map (DPerm (fst kr)) (caseP_mismatch (perm_case b (snd kr)))) (indexed (b_perms b)) ++
+  flat_map (fun kr => map (DMono (fst kr)) (caseM_mismatch (mono_case b (snd kr)))) (indexed (b_monos b)).
+Definition bundle_violation (b : bundle) : list diag :=
+  flat_map (fun kr => map (DPerm (fst kr)) (caseP_violation (perm_case b (snd kr)))) (indexed (b_perms b)) ++
+  flat_map (fun kr => map (DMono (fst kr)) (caseM_violation (mono_case b (snd kr)))) (indexed (b_monos b)).
+
 Definition numbered {A B} (f : A -> list B) (cs : list A) : list (nat * list B) :=
   filter (fun x => match snd x with [] => false | _ => true end) (combine (seq 0 (length cs)) (map f cs)).
 Definition failingA (cs : list caseA) : list nat :=
